@@ -20,7 +20,7 @@ func init() {
 	harness.Register(&harness.Property{
 		ID: "C20", Run: runC20, Oracle: oracleC20,
 		Rule: "cases: (a) every text of <=7 symbols over {a, é, \\n, \\r} (21 845 texts) with every pair 0<=pos<=end<=len(bytes); random texts of <=40 symbols over {a, é, 日, space, \\n, \\r} with all / drawn pairs; texts of <=48 bytes dense in newlines and bytes next to 0x0A (0x0B, 0x09, 0x8A ..., NUL, 0xFF) with every position; " +
-			"texts of 1-65 537 lines with positions on the first, last and boundary lines (10, 100, 1000, 10000; 64 ... 65536); call sequences on one File value; " +
+			"texts of 1-65 537 lines with positions on the first, last and boundary lines (10, 100, 1000, 10000; 64 ... 65536); call sequences on one File value; 2-4 File values alive at once with interleaved calls and unrelated failing parses in between; 1-4 lines of 0-65 537 bytes with positions and range ends inside the long line; " +
 			"(b) every error returned by any entry point on byte soups and mutants. Oracle: line = number of \\n before pos, column = byte distance from the line start, the excerpt quotes exactly lines Line..EndLine with their numbers; " +
 			"Error() starts with 'syntax error: file:line+1:col+1: '. Non-trivial = a text with >=2 lines and a position on a line >=1, at the end of the buffer or on an empty last line (a), an error on a multi-line input (b); distinct by (text,pos,end).",
 		Assumptions: []string{"blank lines and the cursor line in Position.Source are presentation and are skipped when the quoted lines are extracted"},
@@ -47,6 +47,10 @@ func oracleC20(ctx *harness.Ctx, cs *harness.Case) (ds []harness.Discrepancy) {
 		c20Sequence(text, cs.Aux["ops"], add)
 		return
 	}
+	if cs.Aux["mops"] != "" {
+		c20Interleaved(text, cs.Aux["mops"], add)
+		return
+	}
 	pos, _ := strconv.Atoi(cs.Aux["pos"])
 	end, _ := strconv.Atoi(cs.Aux["end"])
 	c20Position(text, "f.sql", pos, end, add)
@@ -54,7 +58,11 @@ func oracleC20(ctx *harness.Ctx, cs *harness.Case) (ds []harness.Discrepancy) {
 }
 
 func c20Position(text, file string, pos, end int, add func(sig, msg string)) {
-	f := &token.File{FilePath: file, Buffer: text}
+	c20PositionOn(&token.File{FilePath: file, Buffer: text}, text, file, pos, end, add)
+}
+
+// c20PositionOn checks Position(pos, end) and ResolvePos(pos) of the given File value (fresh or already used) against the arithmetic.
+func c20PositionOn(f *token.File, text, file string, pos, end int, add func(sig, msg string)) {
 	var p *token.Position
 	o := guarded(func() ([]astNode, error) { p = f.Position(token.Pos(pos), token.Pos(end)); return nil, nil })
 	if o.Panicked {
@@ -153,6 +161,41 @@ func c20Sequence(text, ops string, add func(sig, msg string)) {
 				add("C20 Position in-sequence", fmt.Sprintf("call #%d of sequence %q on one File: Position(%d,%d) = %d:%d-%d:%d, want %d:%d-%d:%d", i, ops, p, e, pos.Line, pos.Column, pos.EndLine, pos.EndColumn, wl, wc, el, ec))
 				return
 			}
+		}
+	}
+}
+
+// c20Interleaved keeps several File values alive at once and interleaves calls on them (and, for "x", a failing parse of an
+// unrelated input, which builds one more line table inside memefish): every result must depend on its own File only.
+// texts are joined by NUL in the case input; ops: "<file>:<pos>:<end>" or "x", comma separated.
+func c20Interleaved(input, ops string, add func(sig, msg string)) {
+	texts := strings.Split(input, "\x00")
+	files := make([]*token.File, len(texts))
+	for i, tx := range texts {
+		files[i] = &token.File{FilePath: fmt.Sprintf("f%d.sql", i), Buffer: tx}
+	}
+	for i, op := range strings.Split(ops, ",") {
+		if op == "x" {
+			callGuard(func() { _, _ = memefish.ParseExpr("other.sql", "1 +\n\n+ (\n") })
+			continue
+		}
+		parts := strings.Split(op, ":")
+		if len(parts) != 3 {
+			continue
+		}
+		fi, _ := strconv.Atoi(parts[0])
+		p, _ := strconv.Atoi(parts[1])
+		e, _ := strconv.Atoi(parts[2])
+		if fi < 0 || fi >= len(files) || p < 0 || e < p || e > len(texts[fi]) {
+			continue
+		}
+		n := 0
+		c20PositionOn(files[fi], texts[fi], files[fi].FilePath, p, e, func(sig, msg string) {
+			n++
+			add(strings.Replace(sig, "C20 ", "C20 interleaved ", 1), fmt.Sprintf("call #%d (%s) of %q with %d Files alive: %s", i, op, ops, len(files), msg))
+		})
+		if n > 0 {
+			return
 		}
 	}
 }
@@ -310,6 +353,63 @@ func runC20(ctx *harness.Ctx) {
 		ctx.Eval(1)
 		if strings.Count(text, "\n") > 0 {
 			ctx.NonTrivial(harness.Hash(text, cs.Aux["ops"]))
+		}
+		ctx.Check(t, cs, oracleC20(ctx, cs))
+	})
+	// several Files alive at once, calls interleaved (line tables are built lazily: whatever they are built in must not be shared)
+	ctx.Rapid("interleaved-files", ctx.Pick(3000, 60000), func(t *rapid.T) {
+		nf := rapid.IntRange(2, 4).Draw(t, "files")
+		texts := make([]string, nf)
+		for j := range texts {
+			var b strings.Builder
+			if rapid.IntRange(0, 5).Draw(t, "many") == 0 { // a table of 60..70 / 120..140 entries now and then
+				b.WriteString(strings.Repeat(rapid.SampledFrom([]string{"\n", "a\n", "ab\n"}).Draw(t, "line"), rapid.SampledFrom([]int{60, 62, 63, 64, 65, 70, 127, 128, 129}).Draw(t, "lines")))
+			}
+			for i, k := 0, rapid.IntRange(1, 40).Draw(t, "n"); i < k; i++ {
+				b.WriteString(rapid.SampledFrom(big).Draw(t, "sym"))
+			}
+			texts[j] = b.String()
+		}
+		var ops []string
+		for i, n := 0, rapid.IntRange(3, 10).Draw(t, "ops"); i < n; i++ {
+			if rapid.IntRange(0, 7).Draw(t, "other-parse") == 0 {
+				ops = append(ops, "x")
+				continue
+			}
+			fi := rapid.IntRange(0, nf-1).Draw(t, "file")
+			p := rapid.IntRange(0, len(texts[fi])).Draw(t, "pos")
+			ops = append(ops, fmt.Sprintf("%d:%d:%d", fi, p, rapid.IntRange(p, len(texts[fi])).Draw(t, "end")))
+		}
+		cs := &harness.Case{Leg: "interleaved-files", Input: strings.Join(texts, "\x00"), Aux: map[string]string{"mops": strings.Join(ops, ",")}}
+		ctx.Eval(1)
+		ctx.NonTrivial(harness.Hash(cs.Input, cs.Aux["mops"]))
+		ctx.Check(t, cs, oracleC20(ctx, cs))
+	})
+	// long lines: line lengths around 4096 / 8192 / 65536 (buffers, clipping), ranges that end before the end of the line
+	ctx.Rapid("long-lines", ctx.Pick(400, 6000), func(t *rapid.T) {
+		var b strings.Builder
+		nl := rapid.IntRange(1, 4).Draw(t, "lines")
+		starts := make([]int, 0, nl+1)
+		for i := 0; i < nl; i++ {
+			starts = append(starts, b.Len())
+			w := rapid.SampledFrom([]int{0, 1, 80, 255, 256, 257, 1023, 1024, 1025, 4095, 4096, 4097, 5000, 8191, 8192, 8193, 20000, 65535, 65536, 65537}).Draw(t, "width")
+			unit := rapid.SampledFrom([]string{"a", "col_0000, ", "é", "x y "}).Draw(t, "unit")
+			b.WriteString(strings.Repeat(unit, w/len(unit)+1)[:w/len(unit)*len(unit)])
+			if i < nl-1 || rapid.Bool().Draw(t, "terminated") {
+				b.WriteByte('\n')
+			}
+		}
+		starts = append(starts, b.Len())
+		text := b.String()
+		li := rapid.IntRange(0, nl-1).Draw(t, "line")
+		lineLen := starts[li+1] - starts[li]
+		pos := starts[li] + rapid.SampledFrom([]int{0, 1, 10, lineLen / 2, max(0, lineLen-2), 4095, 4096, 4097}).Draw(t, "col")
+		pos = min(pos, len(text))
+		end := min(len(text), pos+rapid.SampledFrom([]int{0, 1, 5, 4096, 70000}).Draw(t, "span"))
+		cs := &harness.Case{Leg: "long-lines", Input: text, Aux: map[string]string{"pos": strconv.Itoa(pos), "end": strconv.Itoa(end)}}
+		ctx.Eval(1)
+		if len(text) > 4096 {
+			ctx.NonTrivial(harness.Hash(text, cs.Aux["pos"], cs.Aux["end"]))
 		}
 		ctx.Check(t, cs, oracleC20(ctx, cs))
 	})
